@@ -51,6 +51,11 @@ func runBoth(c *ev.Case, s *vmdiff.Spec, gas int64, group string) *refvm.Result 
 	c.Eval(1)
 	c.Count("runs", 1)
 	c.Count("steps_observed", int64(run.NEvents))
+	if ref.Cut || run.Cut {
+		// not bounded by the gas limit (gas handed back by a failing CHECKPREDICATE child: property C07); no verdict here
+		c.Count("cut_after_max_steps", 1)
+		return nil
+	}
 
 	if run.TrueConstHit {
 		key, what := run.TrueConstKey()
@@ -139,7 +144,7 @@ func TestC08(t *testing.T) {
 		runBoth(c, s, 100000, "idioms")
 	})
 
-	perOp := r.N(400, 20000)
+	perOp := r.N(400, 10000)
 	r.Cases("op", 256*perOp, func(c *ev.Case) {
 		op := byte(c.Index % 256)
 		g := &gen{r: c.Rand}
@@ -148,6 +153,9 @@ func TestC08(t *testing.T) {
 		ample := runBoth(c, s, oc.gas, "op")
 		if ample == nil {
 			return
+		}
+		if oc.shape == "as-predicate" {
+			c.Count("opcode_run_as_predicate", 1)
 		}
 		if c.WantSample() && c.Index%37 == 0 {
 			c.Sample(map[string]interface{}{"opcode": refvm.Name(op), "program": hex.EncodeToString(s.Code), "args": vmdiff.Hex(s.Args), "alt": vmdiff.Hex(s.State),
@@ -176,7 +184,7 @@ func TestC08(t *testing.T) {
 		}
 	})
 
-	r.Cases("seq", r.N(20000, 1000000), func(c *ev.Case) {
+	r.Cases("seq", r.N(20000, 500000), func(c *ev.Case) {
 		g := &gen{r: c.Rand}
 		s := g.sequence()
 		gas := int64(c.Rand.Range(0, 3000))
@@ -198,7 +206,7 @@ func TestC08(t *testing.T) {
 		}
 	})
 
-	r.Cases("laws", r.N(30000, 1000000), func(c *ev.Case) { lawCase(c) })
+	r.Cases("laws", r.N(30000, 500000), func(c *ev.Case) { lawCase(c) })
 
 	// floors: every defined opcode with a success and with each reachable error class
 	for op := 0; op < 256; op++ {
@@ -217,6 +225,7 @@ func TestC08(t *testing.T) {
 		r.Floor("NOPx:"+string(cl), 100)
 	}
 	r.Floor("idioms", int64(len(idioms)))
+	r.Floor("opcode_run_as_predicate", 1000)
 	r.Floor("unsupported_vm_seen", 10)
 	r.Floor("laws_checked", 1000)
 	r.Floor("limit_need-1_runlimit", 1000)
@@ -389,6 +398,9 @@ func runLaw(c *ev.Case, prog []byte, args [][]byte) lawRun {
 	vmdiff.Run(run, s.Real(vmdiff.Fresh, run), 1000000, 0, nil)
 	c.Eval(1)
 	out := lawRun{class: run.Class}
+	if run.Cut {
+		return out
+	}
 	if last := run.Last(); last != nil && last.End && last.Depth == 0 {
 		out.ok, out.stack, out.alt = true, last.DataStack, last.AltStack
 	}
